@@ -177,6 +177,8 @@ type c15Result struct {
 
 // runC15History executes one history on the real library and on the model.
 func runC15History(m *common.Model, c C15Case) (r c15Result) {
+	guardEnter(c)
+	defer guardLeave()
 	defer func() {
 		if p := recover(); p != nil {
 			r.clause = fmt.Sprintf("panic outside CoalesceMessages: %v", p)
